@@ -8,6 +8,7 @@
 package verifsched
 
 import (
+	"runtime"
 	"context"
 	"fmt"
 	"hash/maphash"
@@ -18,6 +19,7 @@ import (
 var Free bool
 
 type thread struct {
+	gid int64 // goroutine running this logical thread
 	id      int
 	wake    chan struct{}
 	done    bool
@@ -173,6 +175,32 @@ func contentHash(v any) uint64 {
 	return maphash.Bytes(seed, raw)
 }
 
+// goid returns the id of the calling goroutine.
+func goid() int64 {
+	var buf [64]byte
+	n := runtime.Stack(buf[:], false)
+	// "goroutine 123 [running]:..."
+	var id int64
+	for _, c := range buf[len("goroutine "):n] {
+		if c < '0' || c > '9' {
+			break
+		}
+		id = id*10 + int64(c-'0')
+	}
+	return id
+}
+
+// foreign reports whether the caller is a goroutine the scheduler does not control (code under
+// exploration may start goroutines of its own, e.g. the writer side of a streamed multipart body).
+// Such goroutines use the real synchronisation objects: their interference is left to the race pass.
+func foreign() bool {
+	s := S
+	if s == nil || Free || s.cur == nil {
+		return true
+	}
+	return s.cur.gid != goid()
+}
+
 // Point is a scheduling point of the running thread.
 func Point(label string) {
 	s := S
@@ -213,6 +241,7 @@ func Spawn(f func()) {
 	t := &thread{id: len(s.threads), wake: make(chan struct{})}
 	s.threads = append(s.threads, t)
 	go func() {
+		t.gid = goid()
 		<-t.wake
 		f()
 		t.done = true
@@ -259,6 +288,7 @@ func Run(prefix []int, body func()) *Sched {
 	s.threads = append(s.threads, t0)
 	s.cur = t0
 	go func() {
+		t0.gid = goid()
 		<-t0.wake
 		body()
 		t0.done = true
@@ -309,7 +339,7 @@ func DropPooled() {
 }
 
 func (p *Pool) Get() any {
-	if Free || S == nil {
+	if Free || S == nil || foreign() {
 		p.realInit.Do(func() { p.real.New = p.New })
 		return p.real.Get()
 	}
@@ -333,7 +363,8 @@ func (p *Pool) Get() any {
 }
 
 func (p *Pool) Put(v any) {
-	if Free || S == nil {
+	if Free || S == nil || foreign() {
+		p.realInit.Do(func() { p.real.New = p.New })
 		p.real.Put(v)
 		return
 	}
@@ -379,7 +410,7 @@ func (m *Mutex) sync() {
 }
 
 func (m *Mutex) Lock() {
-	if Free || S == nil {
+	if Free || S == nil || foreign() {
 		m.real.Lock()
 		return
 	}
@@ -387,25 +418,28 @@ func (m *Mutex) Lock() {
 	Point("mutex.Lock")
 	Block("mutex.Lock", func() bool { return m.owner == 0 })
 	m.owner = S.cur.id + 1
+	// exclusion against goroutines outside the scheduler (uncontended among logical threads)
+	m.real.Lock()
 }
 
 func (m *Mutex) Unlock() {
-	if Free || S == nil {
+	if Free || S == nil || foreign() {
 		m.real.Unlock()
 		return
 	}
 	m.sync()
+	m.real.Unlock()
 	m.owner = 0
 	Point("mutex.Unlock")
 }
 
 func (m *Mutex) TryLock() bool {
-	if Free || S == nil {
+	if Free || S == nil || foreign() {
 		return m.real.TryLock()
 	}
 	m.sync()
 	Point("mutex.TryLock")
-	if m.owner != 0 {
+	if m.owner != 0 || !m.real.TryLock() {
 		return false
 	}
 	m.owner = S.cur.id + 1
@@ -414,7 +448,12 @@ func (m *Mutex) TryLock() bool {
 
 type Once struct{ o sync.Once }
 
-func (o *Once) Do(f func()) { Point("once.Do"); o.o.Do(f) }
+func (o *Once) Do(f func()) {
+	if !foreign() {
+		Point("once.Do")
+	}
+	o.o.Do(f)
+}
 
 type (
 	RWMutex   = sync.RWMutex
